@@ -9,7 +9,7 @@ use crate::{for_both, hx, Ctx};
 use blsful::*;
 use serde_json::json;
 
-pub const RULE: &str = "differential, byte level: (a) seeds of length 0..=64 and 1024 -> SecretKey::from_hash vs reference HKDF KeyGen written over HMAC-SHA-256; SecretKey::random with a known-stream RNG vs KeyGen(first 32 stream bytes); (b) keys (edge + random) -> public_key vs reference SkToPk; (c) keys x messages (length classes; and messages equal to / starting with / one byte short of the signer's own public key) x 3 schemes -> sign vs reference Sign, incl. wire form = variant byte || compressed point; proof_of_possession vs PopProve; (d) aggregate / multi-signature accumulation vs reference point sum; (e) cross-verification both ways; (f) the 8 signature/PoP tag constants vs the draft's literal strings (finite, exhaustive). Distinct by (suite, op, input bytes); non-trivial = both sides produced an output that was compared byte for byte. (g) history clusters (3 quick / 16 thorough per group, one with msg = the key's own public-key bytes): {sign, verify} x 3 schemes x 2 group assignments + proof of possession x 2 over one (key, message), every ordered pair (a,b) asked as a,b,b,a; every answer must be the reference's bytes.";
+pub const RULE: &str = "differential, byte level: (a) seeds of length 0..=64 and 1024 -> SecretKey::from_hash vs reference HKDF KeyGen written over HMAC-SHA-256; SecretKey::random with a known-stream RNG vs KeyGen(first 32 stream bytes); (b) keys (edge + random) -> public_key vs reference SkToPk; (c) keys x messages (length classes; and messages equal to / starting with / one byte short of the signer's own public key) x 3 schemes -> sign vs reference Sign, incl. wire form = variant byte || compressed point; proof_of_possession vs PopProve; (d) aggregate / multi-signature accumulation vs reference point sum; (e) cross-verification both ways; (f) the 8 signature/PoP tag constants vs the draft's literal strings (finite, exhaustive). Distinct by (suite, op, input bytes); non-trivial = both sides produced an output that was compared byte for byte. (g) history clusters (3 quick / 48 thorough per group, one with msg = the key's own public-key bytes): {sign, verify} x 3 schemes x 2 group assignments + proof of possession x 2 over one (key, message), every ordered pair (a,b) asked as a,b,b,a; every answer must be the reference's bytes.";
 
 pub fn run(ctx: &mut Ctx) {
     for_both!(run_suite, ctx);
@@ -48,7 +48,7 @@ fn run_suite<C: Suite>(ctx: &mut Ctx) {
     // every scheme and both group assignments, in every ordered pair as a,b,b,a; every answer
     // must be the reference's bytes whatever was asked before
     ctx.require(&format!("{n}/history"));
-    for i in 0..ctx.tier.pick(3, 16) {
+    for i in 0..ctx.tier.pick(3, 48) {
         g += 1;
         if !ctx.mine(g) {
             continue;
@@ -68,7 +68,7 @@ fn run_suite<C: Suite>(ctx: &mut Ctx) {
     if ctx.tier == crate::Tier::Thorough {
         seed_lens.extend([65, 100, 127, 128, 129, 255, 256, 4096]);
     }
-    let reps = ctx.tier.pick(1, 8);
+    let reps = ctx.tier.pick(1, 24);
     for &len in &seed_lens {
         for rep in 0..reps {
             g += 1;
@@ -110,7 +110,7 @@ fn run_suite<C: Suite>(ctx: &mut Ctx) {
     ctx.require(&format!("{n}/keygen/from_hash"));
 
     // SecretKey::random with a known stream
-    for _ in 0..ctx.tier.pick(8, 64) {
+    for _ in 0..ctx.tier.pick(8, 400) {
         g += 1;
         if !ctx.mine(g) {
             continue;
@@ -133,7 +133,7 @@ fn run_suite<C: Suite>(ctx: &mut Ctx) {
     // (b),(c) keys x messages x schemes
     let mut erng = ctx.rng_l(base, "edges");
     let mut keys = gen::edge_scalars(&mut erng);
-    for _ in 0..ctx.tier.pick(4, 40) {
+    for _ in 0..ctx.tier.pick(4, 200) {
         keys.push(("random", gen::random_scalar(&mut erng)));
     }
     let lens: &[usize] = ctx.tier.pick(gen::LENGTHS_SMALL, gen::LENGTHS_FULL);
